@@ -41,6 +41,8 @@ func init() { register("c19", []string{"C19"}, runC19) }
 
 const c19AddressSpace = 12 << 30
 
+const sigUsize = "c19-uncompressed-size-unbounded"
+
 func runC19(c *Ctx) {
 	if os.Getenv("BSVERIF_CHILD") == "" {
 		c19Supervise(c)
@@ -631,7 +633,12 @@ func c19HelperReads(c *Ctx, file []byte, b bs.DataBlockMetadata, desc any) {
 		})
 		runtime.ReadMemStats(&ms1)
 		if p != "" {
-			c.violation("c19-panic", "helper ("+which+") panicked on accepted metadata: "+p, desc)
+			sig := "c19-panic"
+			if which == "rows" && int64(b.UncompressedSize) > 1<<20+64*int64(len(file)) {
+				// the one size decodeBlockRowDataInto allocates by without a bound (DESIGN 7.5 keeps it out of C19's quantifier)
+				sig = sigUsize
+			}
+			c.violation(sig, "helper ("+which+") panicked on accepted metadata: "+p, desc)
 		}
 		if len(pr.oob) > 0 {
 			c.violation("c19-oob-read", "helper ("+which+") read outside the file on accepted metadata: "+pr.oob[0], desc)
